@@ -7,3 +7,5 @@ import WsVerif.Props.C01
 import WsVerif.Model.Peak
 import WsVerif.Props.C02
 import WsVerif.Props.C10
+import WsVerif.Model.Track
+import WsVerif.Props.C19
